@@ -715,6 +715,8 @@ func GetAPSource(val *fastjson.Value) Source {
 
 	if contBytes := val.Get("source", "content").GetStringBytes(); len(contBytes) > 0 {
 		s.Content.UnmarshalJSON(contBytes)
+	} else if val.Exists("source", "contentMap") {
+		s.Content = JSONGetNaturalLanguageField(val.Get("source"), "contentMap")
 	}
 	if mimeBytes := val.Get("source", "mediaType").GetStringBytes(); len(mimeBytes) > 0 {
 		s.MediaType.UnmarshalJSON(mimeBytes)
